@@ -482,6 +482,38 @@ def run_mixture_chunk(run: Run, tname, n):
     M.check_mixtures(run, tname, ref, tbl, prefix, strings, strict=False)
 
 
+def run_strict_blank(run: Run, tname, n):
+    """D19: `count element+ BLANK element+ …` read strictly as the guide documents it (a blank
+    separates groups exactly as '+' does); oracle = the same string with '+' for the blank, read by
+    the documented grammar, on which the real code agrees"""
+    ref, tbl, prefix = tables(tname)
+    rng = run.rng
+    for _ in range(n):
+        g1 = G.gen_group(rng, ref, 1, 1, True, True, 0.0)
+        while g1["kind"] != "I" or g1["lead"] is None or G.cnt_value(g1["lead"]) == 1:
+            g1 = G.gen_group(rng, ref, 1, 1, True, True, 0.0)
+        g2 = G.gen_group(rng, ref, 1, 1, False, False, 0.0)
+        while g2["kind"] != "I":
+            g2 = G.gen_group(rng, ref, 1, 1, False, False, 0.0)
+        for el in g1["elems"] + g2["elems"]:
+            el["pre"] = ""
+        blank = rng.choice([" ", "  ", "\t"])
+        strict = dict(lead="", comp=[g1, (blank, False, ""), g2], dens=None, trail="")
+        plus = dict(lead="", comp=[g1, ("", True, ""), g2], dens=None, trail="")
+        s = G.text_of(G.render_compound(strict))
+        want = G.den_compound(plus, ref)          # the documented reading: two groups
+        p = G.py_parse(s, tbl)
+        inp = dict(table=tname, string=s, stream="strict-blank")
+        run.count(key=(tname, s), nontrivial=True, tag="%s:strict-blank" % tname)
+        if p[0] != "OK":
+            run.violation("a string of the documented grammar is rejected (%s)" % p[1], inp, kind="grammar-string-rejected")
+            continue
+        bad = oracle_accepts(p[2], want, tbl)
+        if bad:
+            run.violation("the count of the first group also multiplies the blank-separated group: %s" % bad[0], inp,
+                          kind="blank-separated-group-absorbed")
+
+
 SMALL_ALPHABET = "HeO20.()[]{}+-@ n1D"
 
 
@@ -526,12 +558,14 @@ def run(run: Run) -> int:
         tasks += [(run_chunk, ("private", 275, 110, 190, 4, "sample" if i == 0 else None)) for i in range(2)]
         tasks += [(run_small_scope, ("public", n, 0, 1)) for n in (1, 2, 3)]
         tasks += [(run_mixture_chunk, ("public", 300)), (run_mixture_chunk, ("private", 150))]
+        tasks += [(run_strict_blank, ("public", 40))]
     else:
         tasks = [(run_chunk, ("public", 5000, 2000, 4000, 4 + i % 4, "full" if i == 0 else None)) for i in range(60)]
         tasks += [(run_chunk, ("private", 4000, 1600, 3000, 4 + i % 3, "full" if i == 0 else None)) for i in range(16)]
         tasks += [(run_small_scope, ("public", n, 0, 1)) for n in (1, 2, 3)]
         tasks += [(run_small_scope, ("public", 4, i, 8)) for i in range(8)]
         tasks += [(run_mixture_chunk, ("public", 4000)) for i in range(6)] + [(run_mixture_chunk, ("private", 2000)) for i in range(2)]
+        tasks += [(run_strict_blank, ("public", 2000))]
     G.run_chunks(run, tasks)
     run.exhaustive = False
     return run.finish(RULE, assumptions=[
